@@ -171,6 +171,9 @@ where
             "PRM: Roadmap constructed with {} milestones.",
             self.roadmap.len()
         );
+        // Hand the generator back: a roadmap rebuilt after another setup() continues the seeded
+        // sequence instead of falling back to OS entropy.
+        self.rng = Some(rng);
 
         Ok(())
     }
